@@ -162,7 +162,20 @@ def drive(ctx, value, lo, hi, tol, other=None):
         _, oflag = plot_utils.checkLimitsTol(oy, olo, ohi, tol)
         for point, bounds, flags in (((value, oy), ((lo, olo), (hi, ohi)), (flag, oflag)),
                                      ((oy, value), ((olo, lo), (ohi, hi)), (oflag, flag))):
-            inb = plot_utils.point_in_bounds(point, bounds, tol)
+            shape = (hash((value, oy)) & 0xFFFF) % 6
+            p_arg, b_arg = point, bounds
+            if shape == 0:
+                p_arg = (c for c in point)                      # a one-shot generator
+                ctx.tag("shape: point given as a one-shot iterator")
+            elif shape == 1:
+                p_arg, b_arg = iter(list(point)), (list(bounds[0]), list(bounds[1]))
+                ctx.tag("shape: point given as a one-shot iterator")
+            elif shape == 2:
+                b_arg = iter([iter(bounds[0]), iter(bounds[1])])
+                ctx.tag("shape: bounds given as one-shot iterators")
+            elif shape == 3:
+                p_arg, b_arg = list(point), [list(bounds[0]), list(bounds[1])]
+            inb = plot_utils.point_in_bounds(p_arg, b_arg, tol)
             if MON.tol_flag(point[0], bounds[0][0], bounds[1][0], tol) is None or \
                     MON.tol_flag(point[1], bounds[0][1], bounds[1][1], tol) is None:
                 ctx.count("borderline (within 4 ulp of bound +- tolerance): agreement not decided")
@@ -360,6 +373,8 @@ def run(ctx):
                                                     "numbers:mixed int/float beyond 2^53"]
         ctx.case(cls, ("mixed", value, lo, hi, tol, type(value).__name__, type(lo).__name__, type(hi).__name__))
         drive(ctx, value, lo, hi, tol)
+    ctx.need("shape: point given as a one-shot iterator", 2000)
+    ctx.need("shape: bounds given as one-shot iterators", 1000)
     for cls in ("numbers:mixed int/float beyond 2^53", "below lower-tol", "exactly lower-tol", "within tol below lower", "exactly lower",
                 "strictly inside", "exactly upper", "within tol above upper", "exactly upper+tol",
                 "above upper+tol", "lower==upper", "tol=0", "numbers:int", "numbers:dyadic",
